@@ -184,6 +184,54 @@ theorem simpleNodes_spec (sys : Sys) (s : St) (snap : List Nat) (hS : ∀ v, Sor
       · intro h
         exact ⟨h v (by simp), fun v' hv' => h v' (by simp [hv'])⟩
 
+/-! ### the accumulated result only mentions elements of the system -/
+
+/-- sorted, and all explicit elements are mentioned by the system -/
+def Tidy (sys : Sys) (a : IntSet) : Prop := Sorted a.set ∧ ∀ e ∈ a.set, e ∈ mlist sys
+
+theorem Tidy.merge {sys : Sys} {a b : IntSet} (ha : Tidy sys a) (hb : Tidy sys b) : Tidy sys (a.merge b) :=
+  ⟨sorted_merge _ _ ha.1 hb.1, fun e he => by
+    rcases set_merge_sub a b ha.1 hb.1 he with h | h
+    · exact ha.2 e h
+    · exact hb.2 e h⟩
+
+theorem Tidy.inter {sys : Sys} {a b : IntSet} (ha : Tidy sys a) (hb : Tidy sys b) : Tidy sys (a.inter b) :=
+  ⟨sorted_inter _ _ ha.1 hb.1, fun e he => by
+    rcases set_inter_sub a b ha.1 hb.1 he with h | h
+    · exact ha.2 e h
+    · exact hb.2 e h⟩
+
+theorem Tidy.complement {sys : Sys} {a : IntSet} (ha : Tidy sys a) : Tidy sys a.complement := ha
+
+theorem foldl_pres {α β : Type} (P : β → Prop) (f : β → α → β) (h : ∀ b a, P b → P (f b a)) :
+    ∀ (l : List α) (b : β), P b → P (l.foldl f b)
+  | [], _, hb => hb
+  | a :: l, b, hb => foldl_pres P f h l (f b a) (h b a hb)
+
+theorem simpleEdgeStep_tidy {sys : Sys} (s : St) (hT : ∀ v, Tidy sys (s.get v)) (snap : List Nat) (v : Nat)
+    (isC : Bool) (acc : IntSet × List Nat) (w : Nat) (h : Tidy sys acc.1) :
+    Tidy sys (simpleEdgeStep s snap v isC acc w).1 := by
+  unfold simpleEdgeStep
+  simp only
+  split
+  · exact h
+  · split
+    · apply h.merge
+      split
+      · exact (hT w).complement
+      · exact hT w
+    · exact h
+
+theorem simpleNodes_tidy {sys : Sys} (s : St) (hT : ∀ v, Tidy sys (s.get v)) (snap : List Nat)
+    (vs : List Nat) (acc : IntSet × List Nat) (h : Tidy sys acc.1) :
+    Tidy sys (vs.foldl (simpleNodeStep sys s snap) acc).1 := by
+  apply foldl_pres (fun acc : IntSet × List Nat => Tidy sys acc.1) _ _ vs acc h
+  intro b v hb
+  unfold simpleNodeStep
+  apply foldl_pres (fun acc : IntSet × List Nat => Tidy sys acc.1) _ _ _ _ (hb.merge (hT v))
+  intro b' w hb'
+  exact simpleEdgeStep_tidy s hT snap v _ b' w hb'
+
 /-! ### one callback invocation: context, frame, result -/
 
 /-- what holds when the callback is invoked for `comp` in state `s` -/
@@ -204,6 +252,8 @@ structure StepOk (sys : Sys) (comp snap : List Nat) (s t : St) : Prop where
   err : ∃ extra, t.err = s.err ++ extra ∧ ∀ e ∈ extra, e ∈ comp ∧ Offends sys snap e
   offend : (∃ v ∈ comp, Offends sys snap v) → t.err ≠ []
   tmo : s.timeout = true → t.timeout = true
+  bounded : Bounded sys s → Bounded sys t
+  tmoF : Bounded sys s → s.timeout = false → t.timeout = false
 
 /-- the result for one component: its equations hold, and it is below every assignment that satisfies
 these equations and is above the computed one on the successors outside (equal below complement nodes) -/
@@ -221,12 +271,15 @@ theorem simple_stepOk {sys : Sys} {comp snap : List Nat} {s : St} (c : CompCtx s
     StepOk sys comp snap s (simpleClosure sys comp snap s) := by
   obtain ⟨h1, h2, extra, h3, h4, h5⟩ :=
     simpleNodes_spec sys s snap c.sorted comp (⟨false, []⟩, s.err) (by trivial)
+  have hr1B : Bounded sys s → ∀ e ∈ (comp.foldl (simpleNodeStep sys s snap) (⟨false, []⟩, s.err)).1.set, e ∈ mlist sys :=
+    fun hB => (simpleNodes_tidy s (fun v => ⟨c.sorted v, hB v⟩) snap comp (⟨false, []⟩, s.err)
+      ⟨by trivial, by intro e he; cases he⟩).2
   unfold simpleClosure
   simp only
-  generalize comp.foldl (simpleNodeStep sys s snap) (⟨false, []⟩, s.err) = r at h1 h2 h3
+  generalize comp.foldl (simpleNodeStep sys s snap) (⟨false, []⟩, s.err) = r at h1 h2 h3 hr1B
   simp only at h3
   split
-  · refine ⟨c.len, c.sorted, fun _ _ => rfl, ⟨extra, h3, h4⟩, ?_, fun h => h⟩
+  · refine ⟨c.len, c.sorted, fun _ _ => rfl, ⟨extra, h3, h4⟩, ?_, fun h => h, fun h => h, fun _ h => h⟩
     intro ⟨v, hv, ho⟩
     show r.2 ≠ []
     rw [h3]
@@ -234,7 +287,14 @@ theorem simple_stepOk {sys : Sys} {comp snap : List Nat} {s : St} (c : CompCtx s
     have := (List.append_eq_nil_iff.1 he).2
     exact (h5.1 this) v hv ho
   · rename_i hne
-    refine ⟨by simp [assignAll_length, c.len], ?_, ?_, ⟨extra, h3, h4⟩, ?_, fun h => h⟩
+    refine ⟨by simp [assignAll_length, c.len], ?_, ?_, ⟨extra, h3, h4⟩, ?_, fun h => h, ?_, fun _ h => h⟩
+    rotate_right
+    · intro hB v
+      show ∀ e ∈ ((assignAll s.sets comp r.1)[v]?.getD ⟨false, []⟩).set, e ∈ mlist sys
+      rw [assignAll_getD]
+      split
+      · exact hr1B hB
+      · exact hB v
     · intro v
       show Sorted ((assignAll s.sets comp r.1)[v]?.getD ⟨false, []⟩).set
       rw [assignAll_getD]
